@@ -41,11 +41,13 @@ ASSUMPTIONS = ['scipy csr construction / + / .T / astype / tocoo / tocsr / sum_d
                'substrate (the DAG handed to the kernels is compared with the model\'s on every graph)',
                'np.argsort returns a permutation (checked by a contract line; the clique count of a symmetric matrix is '
                'independent of it: cliques_order_free)',
-               'integer widths, not modelled: index arrays are int32 (scipy\'s default below 2^31 stored entries; with '
-               'int64 index arrays get_core_decomposition and count_cliques raise "Buffer dtype mismatch", a '
-               'container-format matter left to C01), hence degrees < 2^31 and, since repair dc1060d3, the int64 products '
-               'degree*(degree-1) and their sum cannot overflow; the `long` triangle / clique counters stay below 2^63; '
-               'clique sizes k < 2^15 (the labels of ListingBox are int16: k >= 32768 raises OverflowError)',
+               'integer widths, not modelled: index arrays of the DAG are int32 (scipy below 2^31 stored entries; int64 '
+               'index arrays of the *input* are accepted since repair c080841f and generated), hence degrees < 2^31 and, '
+               'since repair dc1060d3, the int64 products degree*(degree-1) and their sum cannot overflow; the `long` '
+               'triangle / clique counters stay below 2^63; clique sizes k < 2^31 (labels int32 since repair 3c08572a; '
+               'k = 32768 is generated)',
+               'containers: the four functions are called on scipy csr_matrix only (count_triangles / the coefficient refuse '
+               'csc / coo / ndarray, the two others convert them: container formats are C01\'s)',
                'OpenMP implements `+` reduction of a prange as: private copies initialised to 0, combined in an '
                'unspecified order (the model quantifies over all assignments and all combination trees); that the compiled '
                'loop is parReduce of some valid schedule is the reading of the race-free descriptor, not a theorem',
@@ -102,14 +104,21 @@ def _pat(a):
 
 
 def _gdesc(a):
-    return {'shape': list(a.shape), 'indptr': a.indptr.tolist(), 'indices': a.indices.tolist(),
-            'data': [float(x) for x in a.data], 'dtype': str(a.dtype)}
+    d = {'shape': list(a.shape), 'indptr': a.indptr.tolist(), 'indices': a.indices.tolist(),
+         'data': [float(x) for x in a.data], 'dtype': str(a.dtype)}
+    if a.indices.dtype != np.int32 or a.indptr.dtype != np.int32:
+        d['index_dtype'] = str(a.indices.dtype)
+    return d
 
 
 def _from_desc(gd):
     dt = {'bool': bool, 'int64': np.int64, 'int32': np.int32, 'float32': np.float32}.get(gd.get('dtype'), float)
-    return sparse.csr_matrix((np.array(gd['data']).astype(dt), np.array(gd['indices'], dtype=np.int32),
-                              np.array(gd['indptr'], dtype=np.int32)), shape=tuple(gd['shape']))
+    a = sparse.csr_matrix((np.array(gd['data']).astype(dt), np.array(gd['indices'], dtype=np.int32),
+                           np.array(gd['indptr'], dtype=np.int32)), shape=tuple(gd['shape']))
+    if gd.get('index_dtype') == 'int64':
+        a.indices = a.indices.astype(np.int64)
+        a.indptr = a.indptr.astype(np.int64)
+    return a
 
 
 def _enc_float(x):
@@ -260,7 +269,8 @@ def report_crash(ctx, crash):
 REFUSED = 'c11.spec_refused x'
 
 
-def cases_for_graph(ctx, a, rng, name='', simple=True, ks=None, funcs=('tri', 'cc', 'core', 'cliques', 'dag')):
+def cases_for_graph(ctx, a, rng, name='', simple=True, ks=None, funcs=('tri', 'cc', 'core', 'cliques', 'dag'),
+                    storage=None):
     """Request lines for one square csr matrix.
     simple=True : `a` represents an undirected simple graph (symmetric, loop-free, positive once duplicates are
                   summed and stored zeros dropped — any storage: unsorted rows, stored zeros, duplicate entries, any
@@ -282,6 +292,8 @@ def cases_for_graph(ctx, a, rng, name='', simple=True, ks=None, funcs=('tri', 'c
     nontriv = s.nnz > 0
     wedge = _has_wedge(s)
     scope = 'simple' if simple else 'outside-simple'
+    if storage is None:
+        storage = name.split(':', 1)[1].split(':')[0] if ':' in name else 'canonical'
     if simple:
         loopfree = symmetric = True
     else:
@@ -310,7 +322,7 @@ def cases_for_graph(ctx, a, rng, name='', simple=True, ks=None, funcs=('tri', 'c
                 spec = 'c11.spec_cliques %s 3 %s' % (sp, impl[3:])
             elif simple:
                 spec = REFUSED
-            out.append(Case(('tri', g, par), {'entry': 'count_triangles', 'parallelize': par, 'scope': scope}, run, impl,
+            out.append(Case(('tri', g, par), {'entry': 'count_triangles', 'parallelize': par, 'scope': scope, 'storage': storage}, run, impl,
                             spec, wedge, {'f': 'count_triangles', 'graph': gd, 'parallelize': par, 'name': name}))
     if 'cc' in funcs:
         par = rng.random() < 0.5
@@ -327,8 +339,8 @@ def cases_for_graph(ctx, a, rng, name='', simple=True, ks=None, funcs=('tri', 'c
             spec = 'c11.spec_cc %s %s' % (sp, impl[3:])
         elif simple:
             spec = REFUSED
-        out.append(Case(('cc', g, par), {'entry': 'get_clustering_coefficient', 'parallelize': par, 'scope': scope},
-                        run, impl, spec, wedge,
+        out.append(Case(('cc', g, par), {'entry': 'get_clustering_coefficient', 'parallelize': par, 'scope': scope,
+                                     'storage': storage}, run, impl, spec, wedge,
                         {'f': 'get_clustering_coefficient', 'graph': gd, 'parallelize': par, 'name': name},
                         canon='float'))
     if 'core' in funcs:
@@ -339,7 +351,8 @@ def cases_for_graph(ctx, a, rng, name='', simple=True, ks=None, funcs=('tri', 'c
             spec = 'c11.spec_core %s %s' % (sp, impl[3:])
         elif simple:
             spec = REFUSED
-        out.append(Case(('core', g), {'entry': 'get_core_decomposition', 'scope': scope}, run, impl, spec, nontriv,
+        out.append(Case(('core', g), {'entry': 'get_core_decomposition', 'scope': scope, 'storage': storage}, run, impl, spec,
+                        nontriv,
                         {'f': 'get_core_decomposition', 'graph': gd, 'name': name}))
     if 'cliques' in funcs:
         for k in (ks if ks is not None else range(2, n + 2)):
@@ -351,7 +364,7 @@ def cases_for_graph(ctx, a, rng, name='', simple=True, ks=None, funcs=('tri', 'c
             elif simple and k >= 2 and not impl.startswith('ok '):
                 spec = REFUSED
             out.append(Case(('cliques', g, k), {'entry': 'count_cliques', 'k': 'k>=2' if k >= 2 else 'k<2',
-                                                'scope': scope}, run, impl, spec, wedge or k == 2 and nontriv,
+                                                'scope': scope, 'storage': storage}, run, impl, spec, wedge or k == 2 and nontriv,
                             {'f': 'count_cliques', 'graph': gd, 'k': k, 'name': name}))
     if 'dag' in funcs:
         # the structure handed to the kernels: the real get_dag against the model's getDag, for the two orders used
@@ -372,7 +385,7 @@ def cases_for_graph(ctx, a, rng, name='', simple=True, ks=None, funcs=('tri', 'c
                 return 'ok %s %s' % (enc_list(d.indptr), enc_list(d.indices))
             impl = _call(f_dag)
             run = 'c11.dag %s %s' % (gsq, enc_list(o))
-            out.append(Case(('dag', g, tuple(int(x) for x in o)), {'entry': 'get_dag', 'scope': scope}, run, impl, None,
+            out.append(Case(('dag', g, tuple(int(x) for x in o)), {'entry': 'get_dag', 'scope': scope, 'storage': storage}, run, impl, None,
                             nontriv, {'f': 'get_dag', 'graph': gd, 'order': [int(x) for x in o], 'name': name}))
     return out
 
@@ -431,9 +444,7 @@ def evaluate(ctx, cases, shrink=True):
             seen.add(key)
             try:
                 small = shrink_case(ctx, sig, case)
-            except ToolFailure:
-                raise
-            except Exception as e:  # the shrinker must never hide a failure
+            except (Exception, subprocess.TimeoutExpired) as e:  # the shrinker must never hide a failure (ToolFailure incl.)
                 ctx.note('shrinker failed: %r' % (e,))
                 small = None
             if small is not None:
@@ -657,21 +668,32 @@ def _ks_for(rng, a, quick):
 def variants(ctx, a, rng):
     """Same undirected graph in other clothes: unsorted indices, integer weights, bool / int dtype, stored zeros,
     duplicate entries (a scipy matrix that is not in canonical format)."""
-    v = rng.choice(['unsorted', 'weights', 'bool', 'int', 'float32', 'explicit_zeros', 'duplicates'])
+    v = rng.choice(['unsorted', 'weights', 'bool', 'int', 'float32', 'explicit_zeros', 'duplicates', 'int64idx'])
     n = a.shape[0]
     if v == 'explicit_zeros' and n >= 2:
         # the way they arise in practice: entries set to zero without eliminate_zeros()
         coo = sparse.coo_matrix(a)
         rows, cols, data = list(coo.row), list(coo.col), list(coo.data)
         present = set(zip(rows, cols))
+        added = 0
+        asym = rng.random() < 0.5        # `A[i, j] = 0` alone is the practical case
         for _ in range(rng.randint(1, 2 * n)):
             i, j = rng.randrange(n), rng.randrange(n)
-            if (i, j) not in present:
-                for (x, y) in {(i, j), (j, i)}:
+            for (x, y) in ([(i, j)] if asym else sorted({(i, j), (j, i)})):
+                if (x, y) not in present:
                     present.add((x, y))
                     rows.append(x)
                     cols.append(y)
                     data.append(0.0)
+                    added += 1
+        if added == 0:                   # a complete graph: the only free cells are on the diagonal
+            free = [(x, y) for x in range(n) for y in range(n) if (x, y) not in present]
+            if not free:
+                return 'unsorted', graphs.unsorted_copy(a, rng)
+            x, y = rng.choice(free)
+            rows.append(x)
+            cols.append(y)
+            data.append(0.0)
         order = np.lexsort((np.array(cols), np.array(rows)))
         rows, cols, data = np.array(rows)[order], np.array(cols)[order], np.array(data, dtype=float)[order]
         indptr = np.zeros(n + 1, dtype=np.int32)
@@ -711,6 +733,12 @@ def variants(ctx, a, rng):
         b = sparse.csr_matrix(b + b.T)
         b.sort_indices()
         return v, b.astype(np.float32)
+    if v == 'int64idx':
+        # index arrays of dtype int64 (what scipy produces beyond 2^31 stored entries, or by assignment)
+        b = sparse.csr_matrix(a).copy()
+        b.indices = b.indices.astype(np.int64)
+        b.indptr = b.indptr.astype(np.int64)
+        return v, b
     if v == 'bool':
         return v, a.astype(bool)
     return v, a.astype(np.int64)
@@ -739,7 +767,8 @@ def hub_compute(desc):
         with warnings.catch_warnings():
             warnings.simplefilter('ignore')
             return 'ok ' + _enc_float(get_clustering_coefficient(a))
-    return _call(f_cc)
+    from sknetwork.topology import count_triangles
+    return [_call(f_cc), _call(lambda: 'ok %d' % count_triangles(a, parallelize=True))]
 
 
 def hub_cases(ctx, desc, impl=None):
@@ -757,8 +786,13 @@ def hub_cases(ctx, desc, impl=None):
         degs[j] += 1
     t = len(extra)
     sig = {'entry': 'get_clustering_coefficient', 'parallelize': False, 'scope': 'simple', 'stream': 'hub'}
+    impl, impl_tri = impl
     spec = 'c11.spec_cc_deg %d %s %s' % (t, enc_list(degs), impl[3:]) if impl.startswith('ok ') else REFUSED
-    return [Case(('hub-cc', m, tuple(extra)), sig, None, impl, spec, True, desc)]
+    out = [Case(('hub-cc', m, tuple(extra)), sig, None, impl, spec, True, desc)]
+    spec = 'c11.spec_closed %d %s' % (t, impl_tri[3:]) if impl_tri.startswith('ok ') else REFUSED
+    out.append(Case(('hub-tri', m, tuple(extra)), {'entry': 'count_triangles', 'parallelize': True, 'scope': 'simple',
+                                                   'stream': 'hub'}, None, impl_tri, spec, True, desc))
+    return out
 
 
 _HUB_WORKER = r'''
@@ -796,22 +830,24 @@ def hub_start(ctx):
     """The hub stream runs in its own process, beside the rest of the check."""
     descs = hub_descs(ctx)
     env = dict(os.environ)
-    env['OMP_NUM_THREADS'] = '1'
+    env['OMP_NUM_THREADS'] = '4'          # capped: the thread counts are the sweep's job
+    env['OMP_WAIT_POLICY'] = 'passive'
     p = subprocess.Popen(['/venv/bin/python', '-c', _HUB_WORKER, ctx.overlay_root, os.path.join(VERIF, 'tools')],
                          stdin=subprocess.PIPE, stdout=subprocess.PIPE, stderr=subprocess.PIPE, text=True, env=env)
-    p.stdin.write(json.dumps(descs))
+    p.stdin.write(json.dumps(descs))      # a few hundred bytes: cannot block
     p.stdin.close()
+    p.stdin = None                        # so that communicate() only drains the two output pipes
     return p, descs
 
 
 def hub_finish(ctx, started):
     p, descs = started
     try:
-        p.wait(timeout=900 if ctx.quick else 3000)
+        out, err = p.communicate(timeout=900 if ctx.quick else 3000)
     except subprocess.TimeoutExpired:
         p.kill()
+        p.communicate()
         raise ToolFailure('timeout: the hub stream did not finish in time')
-    out, err = p.stdout.read(), p.stderr.read()
     cases = []
     if p.returncode < 0:
         marks = [ln for ln in err.split('\n') if ln.startswith('#')]
@@ -851,6 +887,9 @@ def build_cases(ctx):
                 tag = 'k=3,4 only'
             cases += cases_for_graph(ctx, a, rng, 'all%d' % n, True, ks, funcs)
             ctx.count('exhaustive:n=%d (%s)' % (n, tag))
+    # a clique size beyond the int16 range (the labels of the box were int16: OverflowError before 3c08572a)
+    cases += cases_for_graph(ctx, _mk(4, _und([(0, 1), (1, 2), (0, 2), (2, 3)])), rng, 'k=32768', True, [32768],
+                             ('cliques',))
     # refused clique sizes
     for k in (1, 0, -1):
         a = _mk(3, _und([(0, 1), (1, 2), (0, 2)]))
@@ -964,11 +1003,14 @@ for idx, gd in enumerate(json.load(sys.stdin)):
     sys.stderr.write('#%d\n' % idx); sys.stderr.flush()
     a = sparse.csr_matrix((np.array(gd['data'], dtype=float), np.array(gd['indices'], dtype=np.int32),
                            np.array(gd['indptr'], dtype=np.int32)), shape=tuple(gd['shape']))
-    r = []
-    for rep in range(gd.get('reps', 1)):
-        r.append(int(count_triangles(a, parallelize=True)))
-    c = float(get_clustering_coefficient(a, parallelize=True))
-    out.append({'tri': r, 'cc': None if c != c else c})
+    try:
+        r = []
+        for rep in range(gd.get('reps', 1)):
+            r.append(int(count_triangles(a, parallelize=True)))
+        c = float(get_clustering_coefficient(a, parallelize=True))
+        out.append({'tri': r, 'cc': None if c != c else c})
+    except Exception as e:
+        out.append({'err': type(e).__name__})
 json.dump(out, sys.stdout)
 '''
 
@@ -1006,7 +1048,7 @@ def thread_sweep(ctx, named_graphs, reps=2):
             raise ToolFailure('thread-sweep worker failed (OMP_NUM_THREADS=%d): %s' % (t, r.stderr[-1500:]))
         res = json.loads(r.stdout)
         for (name, a), gd, w, got in zip(named_graphs, descs, want, res):
-            ok = all(x == w[0] for x in got['tri']) and (
+            ok = 'err' not in got and all(x == w[0] for x in got['tri']) and (
                 (got['cc'] is None and w[1] is None) or
                 (got['cc'] is not None and w[1] is not None and abs(got['cc'] - w[1]) <= TOL * (1 + abs(w[1]))))
             ctx.case(('sweep', t, name, tuple(gd['indptr']), tuple(gd['indices'])), a.nnz > 0,
@@ -1064,16 +1106,18 @@ def prange_lines(ctx):
 def check_prange(ctx):
     """Generated obligations (re-decided on every run): (1) the anchored kernels contain exactly one prange loop, in
     triangles.pyx:count_triangles_from_dag; (2..) every prange loop found is a pure integer `+` reduction."""
-    descs = prange_lines(ctx)
-    ctx.extra['prange_loops'] = descs
+    alld = prange_lines(ctx)
+    ctx.extra['prange_loops'] = alld
+    descs = [d for d in alld if d.get('line')]
     lines = ['c11.prange ' + d['line'] for d in descs]
     n_ob = len(lines) + 1
     ok = 0
-    if len(descs) == 1 and descs[0]['function'] == 'count_triangles_from_dag' and descs[0]['file'] == 'triangles.pyx':
+    if (len(alld) == 1 and len(descs) == 1 and descs[0]['function'] == 'count_triangles_from_dag'
+            and descs[0]['file'] == 'triangles.pyx'):
         ok += 1
     else:
         ctx.broken('prange-shape', 'expected exactly one prange loop in %s, in count_triangles_from_dag; found %r' %
-                   (ANCHORED_PYX, [(d['file'], d['function']) for d in descs]),
+                   (ANCHORED_PYX, [(d['file'], d['function']) for d in alld]),
                    {'entry': 'count_triangles', 'parallelize': True, 'obligation': 'prange-shape'})
     if lines:
         for d, ans in zip(descs, ctx.lean(lines)):
@@ -1156,8 +1200,15 @@ def run(ctx):
     if crash:
         report_crash(ctx, crash)
     evaluate(ctx, cases)
-    thread_sweep(ctx, sweep_graphs(ctx, ctx.rng), reps=2 if ctx.quick else 4)
-    evaluate(ctx, hub_finish(ctx, hubs))
+    # a tool failure / time-out of the later stages must not throw away failing inputs already in hand
+    for stage in (lambda: thread_sweep(ctx, sweep_graphs(ctx, ctx.rng), reps=2 if ctx.quick else 4),
+                  lambda: evaluate(ctx, hub_finish(ctx, hubs))):
+        try:
+            stage()
+        except (ToolFailure, subprocess.TimeoutExpired) as e:
+            if not (ctx.spec_failures or ctx.run_disagreements or ctx.broken_obligations):
+                raise
+            ctx.note('a later stage failed as a tool (%r); the failing inputs found before it are reported' % (e,))
     ctx.exhaustive = False
 
 
@@ -1184,6 +1235,12 @@ def search(ctx, pending):
                 cases += [c for c in cases_for_graph(sub, b, rng, name + ':' + v, True, [2, 3, 4],
                                                      ('tri', 'cc', 'core', 'cliques')) if c.spec]
         cases += hub_cases(sub, {'f': 'hub', 'm': 46342, 'extra': [[1, 2]]})
+        for n in (8, 9, 10, 11):
+            pairs = [(i, j) for i in range(n) for j in range(i + 1, n)]
+            for e in rng.sample(pairs, rng.randint(0, 3)):
+                pairs.remove(e)
+            cases += [c for c in cases_for_graph(sub, _mk(n, _relabel(_und(pairs), n, rng)), rng, 'nearcomplete%d' % n,
+                                                 True, list(range(2, n + 2)), ('cliques',)) if c.spec]
         return cases
     cases, crash = in_child(sub, build)
     if crash:
@@ -1197,7 +1254,13 @@ def search(ctx, pending):
 
 
 def replay(ctx, payload):
-    case = payload.get('case') or {}
+    case = payload.get('case') or (payload.get('what_no_longer_checks') or {}).get('case') or {}
+    if payload.get('kind') == 'obligation':
+        check_prange(ctx)
+        return
+    if not case and 'seed' in payload:
+        import random
+        ctx.rng = random.Random(int(payload['seed']) * 1000003 + 11)     # the stream of the run that found it
     if case.get('f') == 'sweep':
         thread_sweep(ctx, [(case.get('name', 'replay'), _from_desc(case['graph']))], reps=5)
         return
